@@ -178,6 +178,11 @@ func genProject(r *rand.Rand, o genOpts) *projSpec {
 				p.Files[filepath.Join(dir, d, "zlink.txt")] = linkMark + "../linked_" + t.Name + ".txt"
 				p.Files[filepath.Join(dir, "linked_"+t.Name+".txt")] = "linked from " + t.Name + " v0\n"
 			}
+			if r.IntN(5) == 0 {
+				// ... and a link to a directory outside it
+				p.Files[filepath.Join(dir, d, "zdirlink")] = linkMark + "../linked_dir_" + t.Name
+				p.Files[filepath.Join(dir, "linked_dir_"+t.Name, "inner.txt")] = "inner of " + t.Name + " v0\n"
+			}
 			if r.IntN(3) == 0 {
 				p.Files[filepath.Join(dir, d, "en", "msg.txt")] = "hello\n"
 				p.Files[filepath.Join(dir, d, "fr", "other.txt")] = "salut\n"
